@@ -5,6 +5,7 @@ character codes (`_` = empty string); a list of strings is `,`-separated. A trac
 `<n> <xs> <ys> <zs> <ts> <names> <cols>` (floats as IEEE bit patterns, columns `;`-separated).
 
   operate <track> <expr>                    → <status> <vector|none> <names> <cols> <xs> <ys> <zs>
+  operateseq <track> <expr>,<expr>,…        → as `operate`, for the last statement run (the first failing one)
   rpn <expr>                                → <status> <tokens>        (utils.makeRPN, character level)
   rw special|reflex|unary|funcat|pre <expr> → <status> <string>        (the rewriting steps of __evaluate)
   prime <tokens>                            → ok <tokens>
@@ -81,6 +82,16 @@ def handle (cmd : String) (args : List String) : String :=
     | some (tr, [e]) => match str? e with
       | some e => showRes (operate tr e)
       | none => "bad-request"
+    | _ => "bad-request"
+  | "operateseq" =>
+    -- several statements run one after the other on the same track (stops at the first error)
+    match track? args with
+    | some (tr, [es]) => match strList? es with
+      | some (e :: rest) =>
+        showRes (rest.foldl (fun acc e => match acc.1 with
+          | .ok _ => operate acc.2 e
+          | .error _ => acc) (operate tr e))
+      | _ => "bad-request"
     | _ => "bad-request"
   | "rpn" =>
     match args.mapM str? with
